@@ -343,6 +343,40 @@ pub fn composition_queries() -> Vec<String> {
     v
 }
 
+/// every shape of non-singular segment where only a singular query (a value) may stand: function
+/// arguments of value type and comparison operands (the recognisers decide; most are invalid)
+pub fn nonsingular_in_value_position() -> Vec<String> {
+    let shapes = ["[-1:]", "[0:1]", "[:1]", "[:]", "[*]", ".*", "..a", "[0,1]", "['a','b']", "[?@.a]", "[-1::1]", "[ -1 : ]", "[1:2:1]", "[::]", "[-1::]", "[0:1:1]", "[-1:0]", "[-2:]", "[0]", "[-1]", "['a']", ".a", "[0][-1:]", ".a[*].b", "[-1:][0]"];
+    let templates = [
+        "$[?length(@{}) == 1]", "$[?match(@.a{}, '.*')]", "$[?search($['list']{}, @.a)]", "$[?match(@.a, @.b{})]", "$[?count(@.*) == length(@{})]", "$[?@{} == 1]", "$[?1 < @.a{}]", "$[?@.a == ${}]", "$[?value(@{}) == 1]", "$[?count(@{}) == 1]",
+        "$[?length(value(@{})) == 1]", "$[?@{}]", "$[?!@{} && @.a{} != null]",
+    ];
+    let mut v = vec![];
+    for t in templates {
+        for s in shapes {
+            v.push(t.replace("{}", s));
+        }
+    }
+    v
+}
+
+/// number literals with long digit runs: integer parts of 17..30 digits before a fraction or
+/// exponent, 19..45 significant digits, long zero runs, big exponents that stay finite
+pub fn long_number_literal_queries() -> Vec<String> {
+    let lits = [
+        "12345678901234567.5", "100000000000000000000.0", "12345678901234567e3", "10000000000000000.0", "3.14159265358979323846", "0.1000000000000000055511151231257827", "1.0000000000000000000", "0.00000001234567890123456", "0.00000000000000000000001",
+        "123456789012345678901234567890.5", "1.5e300", "15e299", "0.000000000000000000000000000000000000000015e340", "10e18", "1000e16", "-25E+18", "123456E15", "9007199254740991e4", "1e000001", "1.0e+0000308", "0.1e-0000300", "-0.0e99", "5e-324", "4.9e-324", "2.2250738585072011e-308",
+        "1.7976931348623157e308", "0.30000000000000004", "0.299999999999999988897769753748", "9007199254740993.0", "9007199254740992.5", "-9007199254740993.25",
+    ];
+    let mut v = vec![];
+    for l in lits {
+        for t in ["$[?@.n == {}]", "$[?@.n < {}]", "$[?{} >= @.n]", "$[?length(@.s) < {}]", "$[?count(@.*) != {}]", "$[?@.n == {} || @.m == {}]", "$[?value(@.n) <= {}]"] {
+            v.push(t.replace("{}", l));
+        }
+    }
+    v
+}
+
 /// text that looks like query syntax (of this or of older / other dialects) inside quoted names
 /// and string literals, where it is just text - in every place a string can stand
 pub fn syntax_inside_strings() -> Vec<String> {
